@@ -385,5 +385,49 @@ def CPc.busy : CPc → Bool
   | .panicked => false
   | _ => true
 
+/-- a step of a goroutine that is inside an operation (no new call is started) -/
+inductive BusyStep : St → St → Prop where
+  | p (b : Bytes) {s s' : St} : s.ppc.busy = true → stepP s b = some s' → BusyStep s s'
+  | c (call : Call) {s s' : St} : s.cpc.busy = true → stepC s call = some s' → BusyStep s s'
+
+/-- steps the producer still has to take before its call returns -/
+def PPc.rem : PPc → Nat
+  | .idle => 0 | .lock _ => 6 | .app _ => 5 | .inc => 4 | .recv => 3 | .send => 2 | .unlock => 1
+
+/-- upper bound on the steps the consumer still has to take before its call returns -/
+def CPc.rem : CPc → Nat
+  | .idle => 0 | .panicked => 0
+  | .gRecv _ => 10 | .gSend _ _ => 9 | .gTest _ _ => 8 | .lock _ => 7
+  | .dqIdx => 6 | .dqSlice _ => 5 | .dqDec _ => 4
+  | .daTake => 6 | .daNil _ => 5 | .daZero _ => 4
+  | .rqLock _ => 6 | .rqPrep _ => 5 | .rqInc _ => 4
+  | .pubRecv _ => 3 | .pubSend _ => 2 | .unlock _ => 1
+  | .gdRLock => 3 | .gdRead => 2 | .gdRUnlock _ => 1
+
+def St.rem (s : St) : Nat := s.ppc.rem + s.cpc.rem
+
+/-- the consumer's byte stream: everything its calls returned, concatenated -/
+def outBytes (rets : List Ret) : Bytes := (rets.map Ret.bytes).flatten
+
+/-- chunks taken by a completed call -/
+def Ret.chunks : Ret → List Bytes
+  | .deq (some b) => [b]
+  | .deqAll (some bs) => bs
+  | _ => []
+
+def Ret.isReq : Ret → Bool
+  | .req _ => true
+  | _ => false
+
+def gotsOf : List CEv → List Bytes
+  | [] => []
+  | .got c :: es => c :: gotsOf es
+  | .back _ :: es => gotsOf es
+
+def backsOf : List CEv → List Bytes
+  | [] => []
+  | .got _ :: es => backsOf es
+  | .back b :: es => b :: backsOf es
+
 end Conc
 end Scrapli.Queue
